@@ -43,11 +43,28 @@ def main(argv):
             continue
         rec.case = case
         rec.count("cases")
+        marks = {m: (v["count"], len(v["witnesses"])) for m, v in rec.violations.items()}
+        core.outer_fired = False
         try:
             with core.time_limit(plan.get("case_timeout", 30)):
                 drv.run_case(case, rec)
+            if core.outer_fired:  # the watchdog fired, something swallowed it and the case ran to its end: same thing
+                raise core.CaseTimeout()
         except core.CaseTimeout:
             rec.count("case_timeouts")
+            # a case the wall-clock watchdog cut short is NOT JUDGED: the interrupt may have landed inside a library call
+            # the monitor makes on its own behalf (a mapping before a snapshot), so what it recorded in this case is
+            # withdrawn (found under load: a dSGE mapping cut short left a half-extended genotype that the next mapping
+            # 'modified')
+            for m in list(rec.violations):
+                c, w = marks.get(m, (0, 0))
+                if rec.violations[m]["count"] != c:
+                    rec.count("violations_withdrawn_case_timed_out", rec.violations[m]["count"] - c)
+                if c == 0:
+                    del rec.violations[m]
+                else:
+                    rec.violations[m]["count"] = c
+                    del rec.violations[m]["witnesses"][w:]
             lab = {k: (v.get("name") if isinstance(v, dict) else v) for k, v in case.items() if k in ("desc", "repr", "decider", "via", "offset", "kind", "seed", "alg")} if isinstance(case, dict) else str(case)[:80]
             rec.set_add("timed_out_cases", lab)
             if hasattr(drv, "on_timeout"):
